@@ -250,7 +250,7 @@ def run_cbmc(q, extra=()):
         fo = open(os.path.join(q.wd, out), 'wb')
         procs.append((subprocess.Popen(c, cwd=q.wd, stdout=fo, stderr=open(os.path.join(q.wd, out + '.err'), 'wb'), preexec_fn=pre), out, c, fo))
     start(cmd, 'cbmc.json')
-    second_at = None if (ob.get('sat_solver') or ob.get('portfolio') is False or any('sat-solver' in x for x in cmd)) else max(30, min(90, tier_to // 8))
+    second_at = None if (ob.get('sat_solver') or ob.get('portfolio') is False or any('sat-solver' in x for x in cmd)) else (0 if ob.get('portfolio') == 'eager' else max(30, min(90, tier_to // 8)))
     winner = None
     while time.time() - t0 < tier_to and winner is None and procs:
         for pr in list(procs):
